@@ -10,6 +10,7 @@
 (*   answers  : the answers of has_specification since the fork                                    *)
 (*   outcome  : how the continuation ended ("spec" / "none" / "timeout" / exception name)          *)
 (*   terms    : the root's enumeration computed from the returned specification (<<>> if none)      *)
+(*   again    : what asking for the specification once more, with no work in between, gives          *)
 (* The restored copy must be indistinguishable from the original for all these observers.          *)
 EXTENDS Naturals, Integers, Sequences, FiniteSets, SequencesExt, TLC
 SeqSetR(s) == {s[i] : i \in 1..Len(s)}
@@ -22,6 +23,8 @@ PairClause(a, b) ==
     [] a.answers # b.answers -> "RestoredGivesTheSameAnswers"
     [] a.outcome # b.outcome -> "RestoredEndsTheSameWay"
     [] a.terms # b.terms -> "RestoredSpecificationEnumeratesTheSame"
+    [] a.again # b.again -> "RestoredAnswersTheRepeatedRequestTheSame"
+    [] a.outcome = "spec" /\ a.again # "spec" -> "SpecificationCanBeRequestedAgainWithoutFurtherWork"
     [] OTHER -> "ok"
 \* the restored searcher equals the original at the fork (the library's own ==)
 ForkClause(e) == IF e.equal = "T" THEN "ok" ELSE "RestoredEqualsOriginal"
